@@ -14,7 +14,8 @@ META = {
              "vm_compute witness (uniform 2x3, beam 20: duplicated label sequences, zero-probability hypotheses = F14). "
              "Tie: matrices with T<=5, L<=4 and dyadic probabilities (ln(p) handed to CtcDecoder; uniform rows, zeros = -inf, ties, dead rows), "
              "beam widths and n-best 1..25, exhaustive tiny scope (T<=2, L<=3 over a 3-value alphabet); label sequences and positions compared "
-             "exactly, scores within 2^-13 relative and only where the model's ranking gaps exceed 2^-10 (otherwise the beam comparison of that "
+             "exactly (greedy: against every arg-max path, so a changed arg_max tie-break raises no alarm and is only counted in the evidence), "
+             "scores within 2^-13 relative and only where the model's ranking gaps exceed 2^-10 (otherwise the beam comparison of that "
              "case is skipped and counted, never reported); the implementation's own output is checked against the property oracle "
              "(distinct, finite, <= exact brute-force probability computed in Coq, = exact when unpruned, greedy = collapsed arg-max for some tie-break)."),
     "note": ("Partial: f32 rounding of log_sum_exp/ln/exp is not modelled (scores are compared with tolerance through exp() computed by the "
@@ -24,7 +25,7 @@ META = {
 }
 GROUP = "ctc"
 REQ = "From RV Require Import Prelude.\nFrom Ctc Require Import ModelCtc.\nOpen Scope N_scope."
-THEOREMS = ["C39_greedy_is_collapsed_argmax", "C39_greedy_positions_first", "C39_argmax_last_max",
+THEOREMS = ["C39_greedy_is_collapsed_argmax", "C39_greedy_loop_is_collapse", "C39_greedy_positions_first", "C39_argmax_last_max",
             "C39_beam_step_keeps_prefixes_distinct", "C39_beam_prefixes_distinct", "C39_beam_scores_nonzero",
             "C39_beam_score_le_exact", "C39_beam_exact_when_unpruned", "C39_beam_complete_when_unpruned",
             "C39_exact_is_alignment_sum", "C39_forward_recursion_is_exact",
@@ -50,14 +51,19 @@ def main(ctx):
     cases = ctx.gen_exec(bindir, "c39", ctx.n(2500, 30000), inputs=ctx.replay_inputs())
     ctx.correspond("CtcDecoder", GROUP, REQ, cases, classify=classify, show="show", shard=250,
                    fn_name="Ctc.ModelCtc.{greedy_steps,decode_beam_nbest}")
-    # informational: how many cases had their beam comparison skipped (ranking gap below the margin)
-    # and how many ran unpruned (the 'scores are exact' clause applied)
+    # informational (no alarm): how many cases had their beam comparison skipped (ranking gap below the
+    # margin), how many ran unpruned (the 'scores are exact' clause applied), and whether arg_max still
+    # breaks ties the way the deterministic model does (last maximum) -- a policy, not part of the property
     sub = cases[-ctx.n(750, 3000):]
-    nd, nu, err = ctx.coq_eval_cases(GROUP, REQ, [c["term"] for c in sub], "is_decisive", "is_unpruned", 250, tag="info")
-    if not err:
+    terms = [c["term"] for c in sub]
+    nd, nu, err = ctx.coq_eval_cases(GROUP, REQ, terms, "is_decisive", "is_unpruned", 250, tag="info")
+    nt, _, err2 = ctx.coq_eval_cases(GROUP, REQ, terms, "greedy_tiebreak_as_modelled", "is_unpruned", 250, tag="tie")
+    if not err and not err2:
         ctx.extra["beam_comparison_skipped_for_ranking_gap"] = {"of": len(sub), "skipped": len(nd)}
         ctx.extra["unpruned_cases_checked_for_exact_score"] = {"of": len(sub), "unpruned": len(sub) - len(nu)}
-        ctx.log("beam comparison skipped (ranking gap below margin): %d of %d; unpruned (exactness clause applies): %d"
-                % (len(nd), len(sub), len(sub) - len(nu)))
+        ctx.extra["greedy_tiebreak_differs_from_model"] = {"of": len(sub), "differs": len(nt)}
+        ctx.log("beam comparison skipped (ranking gap below margin): %d of %d; unpruned (exactness clause applies): %d; "
+                "greedy tie-break differs from the model (informational): %d"
+                % (len(nd), len(sub), len(sub) - len(nu), len(nt)))
     if failed and not ctx.violations:
         ctx.proof_broken(failed, "all correspondence cases of this run")
